@@ -46,7 +46,7 @@ def main() -> int:
                              write_evidence=False)
 
     import glob
-    for old in glob.glob(os.path.join(common.ROOT, "evidence", "replay", f"{prop}-*.json")):
+    for old in glob.glob(os.path.join(common.replay_directory(), f"{prop}-*.json")):
         os.unlink(old)  # witnesses of earlier runs of this property
     try:
         mod.run(args.tier, col)
